@@ -31,6 +31,8 @@
 //	proxy.go    StartProxy(ProxyOpts) builds the proxy (offline mode, forwarding none, quotas and packet
 //	            limiter off, configurable compression threshold / timeouts / try list), accepts
 //	            loopback connections into Proxy.HandleConn; Register(backend); Player(name).
+//	syncsink.go SyncSink: a discarding logr.LogSink used as a scheduling aid (barrier at gate's
+//	            newServerConnection) for forced concurrent bursts; ProxyOpts.Sync installs it.
 //	par.go      RunParallel(n, width, job): runs jobs width-wide, results in index order.
 //
 // Every blocking operation has a watchdog timeout; a hang is reported as an observation.
